@@ -1,8 +1,12 @@
 package rules
 
 import (
+	"fmt"
 	"go/token"
 	"go/types"
+	"os"
+	"sort"
+	"strconv"
 	"strings"
 
 	"golang.org/x/tools/go/ssa"
@@ -103,5 +107,215 @@ func ruleConfiguredInterceptorsUsed(c *Ctx, rule string) {
 	}
 	if n == 0 {
 		c.R.Add(rule, "pkg:mux", "call:syntax.(*Interceptors).*/exists", "-", false, "no method of a configured object calls the pattern parser any more")
+	}
+}
+
+// ruleEmptyListElementsIgnored — C12.R11: the requested-header test evaluated (symeval.go) for a request whose
+// Access-Control-Request-Headers list has an element that is empty after trimming ("x-a," / ", x-a" / an empty
+// line among several): such an element names no header (a recipient ignores empty list elements), so it is never
+// the reason for a denial. Scenario: not every header is allowed, the joined header text is not empty, the generic
+// element of the split list trims to "", and "" is not a configured header name. No outcome is `false`.
+func ruleEmptyListElementsIgnored(c *Ctx, rule string) {
+	c.R.Rule(c.R.Property+"."+rule, 1, "an empty element of the requested-header list is not a reason to deny the preflight")
+	_, f, _ := corsFuncs(c)
+	se := &symEval{c: c}
+	emptyEl := func(e string) bool {
+		// the element, trimmed or not
+		return e == "EL" || e == "CALL:strings.TrimSpace(EL)"
+	}
+	se.elem = func(slice string) string {
+		if strings.HasPrefix(slice, "CALL:strings.Split(") || strings.HasPrefix(slice, "CALL:strings.SplitSeq(") {
+			return "EL"
+		}
+		return "" // the configured list: its generic element
+	}
+	se.nonEmpty = func(coll string) bool { return strings.HasPrefix(coll, "CALL:strings.Split(") }
+	se.truth = func(e string) int {
+		b := func(v bool) int {
+			if v {
+				return 1
+			}
+			return -1
+		}
+		switch {
+		case e == "RECV.anyHeaders":
+			return -1
+		case strings.HasPrefix(e, "CALL:strings.EqualFold(") || strings.HasPrefix(e, "CONTAINS("):
+			return -1 // "" is not a configured header
+		}
+		for _, op := range []string{"EQ", "NE"} {
+			if !strings.HasPrefix(e, op+"(") {
+				continue
+			}
+			in := e[len(op)+1 : len(e)-1]
+			var x string
+			switch {
+			case strings.HasSuffix(in, `,CONST:""`):
+				x = strings.TrimSuffix(in, `,CONST:""`)
+			case strings.HasPrefix(in, `CONST:"",`):
+				x = strings.TrimPrefix(in, `CONST:"",`)
+			case strings.HasPrefix(in, "LEN(") && strings.HasSuffix(in, "),CONST:0"):
+				x = in[4 : len(in)-9]
+			default:
+				continue
+			}
+			if emptyEl(x) {
+				return b(op == "EQ")
+			}
+			return b(op == "NE") // the header text as a whole is not empty
+		}
+		return 0
+	}
+	se.model = func(se *symEval, name string, call *ssa.CallCommon, args []sval, st *sstate) ([]sval, bool) {
+		switch name {
+		case "slices.ContainsFunc", "slices.IndexFunc":
+			if len(args) == 2 && args[1].e == "FUNC" {
+				res := se.run(args[1].fn, []sval{sv("AH")}, args[1].free, st, 1)
+				if len(res) >= 1 && len(res[0].ret) == 1 {
+					if name == "slices.ContainsFunc" {
+						return []sval{sv("CONTAINS(" + res[0].ret[0].e + ")")}, true
+					}
+				}
+			}
+		case "slices.Contains":
+			return []sval{sv("CONTAINS(" + args[0].e + "," + args[1].e + ")")}, true
+		}
+		return nil, false
+	}
+	var bad []string
+	outs := se.outcomes(f, []sval{sv("RECV"), sv("R")})
+	for _, o := range outs {
+		if os.Getenv("MUXLINT_DEBUG_R11") != "" {
+			fmt.Fprintln(os.Stderr, "R11 outcome:", o.String())
+		}
+		if o.ret != "CONST:true" {
+			bad = append(bad, o.ret)
+		}
+	}
+	ok := len(bad) == 0 && len(outs) > 0
+	c.R.Add(rule, c.fk(f), "scenario:empty-list-element/not-denied", c.P.Pos(f.Pos()), ok, ifelse(ok, fmt.Sprintf("with an element that trims to \"\" every outcome is true (%d outcomes)", len(outs)), "a list element that is empty after trimming (\"x-a,\" or an empty line among several) is looked up in the allowed headers like a name, is not found, and the preflight is denied although every header it names is allowed: outcomes "+strings.Join(bad, " | ")))
+}
+
+// ruleNodeMethodSetReadOnce — C06.R10 / C12.R12: code that answers one request from a node's method set reads that set
+// once. Methods() and AllowHeader() each take the tree lock for themselves; between two reads a Remove or Handle of
+// another goroutine can change the set, and a response assembled from both (a preflight approved by the first read,
+// answered with the list of the second) is one the router could give at no instant. Checked in every library
+// function outside the tree package: no path leads from one read of a node's method set to another read on the same
+// node.
+func ruleNodeMethodSetReadOnce(c *Ctx, rule string) {
+	c.R.Rule(c.R.Property+"."+rule, 1, "one decision about a node's method set is made from one read of it")
+	isRead := func(in ssa.Instruction) (string, string, bool) {
+		call := an.CallOf(in)
+		if call == nil {
+			return "", "", false
+		}
+		switch n := an.CalleeName(call); n {
+		case "invoke:types.Node.Methods", "invoke:types.Node.AllowHeader":
+			return an.AP(call.Value), strings.TrimPrefix(n, "invoke:types.Node."), true
+		}
+		return "", "", false
+	}
+	n := 0
+	for _, f := range c.libFuncs() {
+		if strings.HasPrefix(an.FuncKey(f), c.A.TreePkg.Name()+".") {
+			continue
+		}
+		var reads []ssa.Instruction
+		an.AllInstrs(f, func(in ssa.Instruction) {
+			if _, _, ok := isRead(in); ok {
+				reads = append(reads, in)
+			}
+		})
+		for _, a := range reads {
+			na, ma, _ := isRead(a)
+			n++
+			var second ssa.Instruction
+			path := (&an.Query{
+				Target: func(t ssa.Instruction) bool {
+					nb, _, ok := isRead(t)
+					if ok && nb == na {
+						second = t
+						return true
+					}
+					return false
+				},
+			}).Search(an.After(a))
+			mb := ""
+			if second != nil {
+				_, mb, _ = isRead(second)
+			}
+			o := c.R.Add(rule, c.fk(f), "read:"+na+"."+ma+"/only-read-on-its-path", c.pos(a), path == nil, ifelse(path == nil, "no second read of the node's method set follows", "after "+ma+"() the same node's method set is read again ("+mb+"()) under a separate lock: a Remove or Handle in between makes the two reads disagree, and the response (a preflight approved for a method the returned list does not contain) matches no instant of the router"))
+			if path != nil {
+				o.Path = c.P.PathString(path)
+			}
+		}
+	}
+	if n == 0 {
+		c.R.Add(rule, "pkg:mux", "read:node-method-set/exists", "-", false, "no library function outside the tree reads a node's method set any more (the CORS preflight test could not be found)")
+	}
+}
+
+// rulePreflightNotAgainstRootUnion — C11.R12: Tree.Handler maps some request paths ("*" and the empty path of an
+// absolute-form request target) to the root node, whose method set is the union of the methods of every route (it
+// exists for the Allow header of `OPTIONS *`). That set says nothing about what the requested address serves, so the
+// CORS procedure never tests a requested method against it: for every path constant Tree.Handler compares the
+// request path with, no path through cors.handle under "the request path is that constant" reaches a read of the
+// node's method set. (Otherwise a preflight for DELETE on the empty path is granted as soon as any route serves
+// DELETE.)
+func rulePreflightNotAgainstRootUnion(c *Ctx, rule string) {
+	c.R.Rule(c.R.Property+"."+rule, 1, "a preflight is never approved against the root node's union of all methods")
+	handle, _, _ := corsFuncs(c)
+	var consts []string
+	seen := map[string]bool{}
+	an.AllInstrs(c.A.TreeHandler, func(in ssa.Instruction) {
+		bo, ok := in.(*ssa.BinOp)
+		if !ok || (bo.Op != token.EQL && bo.Op != token.NEQ) {
+			return
+		}
+		for _, pair := range [][2]ssa.Value{{bo.X, bo.Y}, {bo.Y, bo.X}} {
+			k, isS := strConst(pair[1])
+			if isS && strings.HasSuffix(an.AP(pair[0]), ".Path") && !seen[k] {
+				seen[k] = true
+				consts = append(consts, k)
+			}
+		}
+	})
+	sort.Strings(consts)
+	for _, k := range consts {
+		k := k
+		assume := func(cond ssa.Value) (bool, bool) {
+			v, neg := stripNot(cond)
+			bo, ok := v.(*ssa.BinOp)
+			if !ok || (bo.Op != token.EQL && bo.Op != token.NEQ) {
+				return false, false
+			}
+			for _, pair := range [][2]ssa.Value{{bo.X, bo.Y}, {bo.Y, bo.X}} {
+				s, isS := strConst(pair[1])
+				if isS && strings.HasSuffix(an.AP(pair[0]), ".URL.Path") {
+					return ((s == k) == (bo.Op == token.EQL)) != neg, true
+				}
+			}
+			return false, false
+		}
+		path := (&an.Query{
+			Assume: assume,
+			Facts:  true,
+			Deep:   deepDefault,
+			Target: func(t ssa.Instruction) bool {
+				call := an.CallOf(t)
+				if call == nil {
+					return false
+				}
+				n := an.CalleeName(call)
+				return n == "invoke:types.Node.Methods" || n == "invoke:types.Node.AllowHeader"
+			},
+		}).Search(an.Entry(handle))
+		o := c.R.Add(rule, c.fk(handle), "path="+strconv.Quote(k)+"/method-set-of-the-root-not-consulted", c.P.Pos(handle.Pos()), path == nil, ifelse(path == nil, "for this path the CORS procedure does not consult the node's method set", "Tree.Handler answers the request path "+strconv.Quote(k)+" with the root node, whose method set is the union over all routes, and the CORS procedure tests the requested method against it: a preflight for a method that any route serves is granted on this path although the path itself serves only OPTIONS"))
+		if path != nil {
+			o.Path = c.P.PathString(path)
+		}
+	}
+	if len(consts) == 0 {
+		c.R.Add(rule, c.fk(c.A.TreeHandler), "root-mapped-paths/exist", c.P.Pos(c.A.TreeHandler.Pos()), true, "Tree.Handler maps no constant path to the root node")
 	}
 }
